@@ -98,14 +98,12 @@ Proof. reflexivity. Qed.
 
 Lemma step_versions_spec h o h1 o1 :
   step_versions h o = Ok (h1, o1) ->
-  (h1 = h /\ o1 = o /\ ver_lt (maxVersion (sc o)) (3, 4) = false) \/
-  (exists l, filter_lt34 (G h o F_versions) = Ok l /\ h1 = (h ++ [l])%list /\
-             o1 = set_loc o F_versions (List.length h) /\ ver_lt (maxVersion (sc o)) (3, 4) = true).
+  exists l, filter_range (minVersion (sc o)) (maxVersion (sc o)) (G h o F_versions) = Ok l /\
+            h1 = (h ++ [l])%list /\ o1 = set_loc o F_versions (List.length h).
 Proof.
-  unfold step_versions. destruct (ver_lt (maxVersion (sc o)) (3, 4)).
-  - destruct (filter_lt34 (G h o F_versions)) as [l|e]; [|discriminate].
-    unfold halloc. intros H. injection H as <- <-. right. exists l. auto.
-  - intros H. injection H as <- <-. left. auto.
+  unfold step_versions.
+  destruct (filter_range (minVersion (sc o)) (maxVersion (sc o)) (G h o F_versions)) as [l|e]; [|discriminate].
+  unfold halloc. intros H. injection H as <- <-. exists l. auto.
 Qed.
 
 Lemma step_macnames_spec self h o :
@@ -199,7 +197,7 @@ Proof.
   destruct (checks_A T h s); [|injection H as <- _; apply frame_all_refl].
   destruct (step_versions h s) as [[h1 o1]|e] eqn:E1; [|injection H as <- _; apply frame_all_refl].
   assert (F1 : frame_all h h1).
-  { apply step_versions_spec in E1. destruct E1 as [[-> _]|[l [_ [-> _]]]]; [apply frame_all_refl|apply (frame_alloc h l)]. }
+  { apply step_versions_spec in E1. destruct E1 as [l [_ [-> _]]]. apply (frame_alloc h l). }
   destruct (sanityCheckExtensions T (lists h1 o1) (sc o1)); [|injection H as <- _; exact F1].
   destruct (step_macnames s h1 o1) as [h2 o2] eqn:E2.
   assert (F2 : frame_all h h2).
